@@ -16,7 +16,7 @@ RULE = ("complete table: version strings {absent, 1, 2, 2.0, 2.1, 2.2, 2.3, 2.1.
         "4.0, 10.2} x explicit api_version {absent, equal, different} x stub kind {in-process with v3 signatures, "
         "in-process with v2 signatures, in-process mixed (init only / step only), remote raw-protocol stub over the "
         "in-memory transport} x type given/absent; each admissible stub then runs in a small scenario (producer -> "
-        "stub) and its literal requests are recorded. Oracle: step has 2 positional arguments iff version < 3, "
+        "stub), calls five extra methods (names incl. setup, done, set) and its literal requests are recorded. Oracle: step has 2 positional arguments iff version < 3, "
         "setup_done iff version >= 2.2, time_resolution to an in-process init iff its signatures accept it, missing "
         "type => time-based, ScenarioError at start iff version >= 4 / explicit mismatch / in-process v2 signatures "
         "claiming >= 3; differential: (time, inputs) sequence equal to the v3 stub's. non-trivial = version < 3 with "
@@ -39,8 +39,11 @@ def vlist(v):
     return [1] if v is None else [int(x) for x in v.split(".")]
 
 
+EXTRA = ["setup", "done", "set", "configure_grid", "step_size"]
+
+
 def make_meta(version, with_type):
-    m = {"models": {"M": {"public": True, "params": [], "attrs": ["a", "b"]}}}
+    m = {"models": {"M": {"public": True, "params": [], "attrs": ["a", "b"]}}, "extra_methods": list(EXTRA)}
     if version is not None:
         m["api_version"] = version
     if with_type:
@@ -72,6 +75,19 @@ class _Base(mosaik_api_v3.Simulator):
 
     def get_data(self, outputs):
         return {e: {a: f"{self.sid}.{a}@{self.t}" for a in attrs} for e, attrs in outputs.items()}
+
+    def _extra(self, name, args, kwargs):
+        LOG.append((self.sid, "extra", (name, list(args), dict(kwargs))))
+        return f"{name}:{list(args)}"
+
+
+for _name in EXTRA:
+    def _mk(n):
+        def meth(self, *args, **kwargs):
+            return self._extra(n, args, kwargs)
+        meth.__name__ = n
+        return meth
+    setattr(_Base, _name, _mk(_name))
 
 
 class StubV3(_Base):
@@ -139,6 +155,9 @@ async def start_raw(mosaik_config, sim_name, sim_config, mosaik_remote):
                                           for e, attrs in args[0].items()})
                 elif func == "stop":
                     break
+                elif func in EXTRA:
+                    LOG.append((state["sid"], "extra", (func, list(args), dict(kwargs))))
+                    await req.set_result(f"{func}:{list(args)}")
                 else:
                     await req.set_result(None)
         except (EndOfRequests, asyncio.CancelledError, Exception):  # noqa
@@ -195,6 +214,12 @@ def run_row(row, stub_version=None):
         pmeta = {"api_version": "3.0", "type": "time-based",
                  "models": {"M": {"public": True, "params": [], "attrs": ["a", "b"]}}}
         prod = w.start("Meta", sim_id="P", meta=pmeta)
+        out["extra_results"] = {}
+        for i, name in enumerate(EXTRA):
+            try:
+                out["extra_results"][name] = getattr(fac, name)(i, key=name)
+            except Exception as e:  # noqa
+                out["extra_results"][name] = f"EXC {type(e).__name__}: {e}"
         e_s, e_p = fac.M.create(1)[0], prod.M.create(1)[0]
         w.connect(e_p, e_s, "a")
         try:
@@ -266,6 +291,20 @@ def check_row(row, ref_seq):
     if not row["with_type"] and res.get("type") != "time-based":
         fails.append(Failure("C15.default_type", f"C15.default_type|{shape}",
                              f"{row}: missing type was treated as {res.get('type')}", case))
+    # extra methods are requests like any other: every call reaches the simulator with its arguments and the
+    # result comes back ("apart from that, it sees the same ... as a current-version simulator")
+    got_extra = [r[2] for r in reqs if r[1] == "extra"]
+    for i, name in enumerate(EXTRA):
+        want_call = (name, [i], {"key": name})
+        if not any((g[0], list(g[1]), dict(g[2])) == want_call for g in got_extra):
+            fails.append(Failure("C15.extra_method", f"C15.extra_method|lost|{shape}",
+                                 f"{row}: extra method {name}({i}, key={name!r}) never reached the simulator "
+                                 f"(received: {got_extra})", case))
+            break
+        if res.get("extra_results", {}).get(name) != f"{name}:[{i}]":
+            fails.append(Failure("C15.extra_method", f"C15.extra_method|result|{shape}",
+                                 f"{row}: extra method {name} returned {res.get('extra_results', {}).get(name)!r}", case))
+            break
     seq = [[r[2][0], r[2][1]] for r in steps]
     if ref_seq is not None and core.jnorm(seq) != core.jnorm(ref_seq):
         fails.append(Failure("C15.differs_from_v3", f"C15.differs_from_v3|{shape}",
